@@ -97,7 +97,8 @@ Definition zero_crossings (keep_adj : bool) (tol : T) (xs : list T) : list nat :
   | _ => let z := zc0 keep_adj xs in if n0 <? tol then zc_prune (length z) tol xs z else z
   end.
 
-(** ** switched peaks (C12): fold over the peak list exactly as the loop does (after the fix of the first set) *)
+(** ** switched peaks (C12): fold over the peak list exactly as the loop does (after the two fixes: first set seeded
+    with the first peak; candidates restricted to the sign of the value that opened the half cycle) *)
 Definition nsign (x : T) : T := if n0 <? x then n1 else if x <? n0 then - n1 else n0.
 (** state: last value, best |value| of the current set, its series index, output (reversed) *)
 Fixpoint sp_loop (tol : T) (xs : list T) (last bestv : T) (besti : nat) (ps : list nat) (out : list nat) : list nat :=
@@ -108,7 +109,7 @@ Fixpoint sp_loop (tol : T) (xs : list T) (last bestv : T) (besti : nat) (ps : li
     let adj := v + tol * nsign last in
     if adj * last <=? n0
     then sp_loop tol xs v (nabs v) p r (besti :: out)
-    else if bestv <? nabs v then sp_loop tol xs last (nabs v) p r out
+    else if (n0 <? v * last) && (bestv <? nabs v) then sp_loop tol xs last (nabs v) p r out
          else sp_loop tol xs last bestv besti r out
   end.
 Definition switched_peaks_of (tol : T) (xs : list T) (ps : list nat) : list nat :=
